@@ -1,6 +1,8 @@
 package ops
 
 import (
+	"math"
+
 	"gorgonia.org/tensor"
 )
 
@@ -68,6 +70,14 @@ func Sigmoid(X tensor.Tensor) (tensor.Tensor, error) {
 
 // ReLU performs the ReLU operation on a tensor.
 func ReLU(X tensor.Tensor) (tensor.Tensor, error) {
+	// Multiplying by the comparison mask turns -Inf into NaN (-Inf * 0), so floats are clamped instead.
+	switch X.Dtype() {
+	case tensor.Float32:
+		return tensor.Clamp(X, float32(0), float32(math.Inf(1)))
+	case tensor.Float64:
+		return tensor.Clamp(X, float64(0), math.Inf(1))
+	}
+
 	typedZero, err := GetValueAsTensorType(0.0, X.Dtype())
 	if err != nil {
 		return nil, err
